@@ -724,18 +724,29 @@ func ruleDedup(c *Ctx, a *reloadAnchors) {
 		return
 	}
 	key := short(f)
+	// the builder's region: the function and the small helpers of the command it calls (newCipherEntry(keyConfig), a set
+	// type with has/add methods …)
+	regFns := regionFns(c, f, nil, 2)
+	inReg := map[*ssa.Function]bool{}
+	for _, g := range regFns {
+		inReg[g] = true
+	}
 	var push, mkEntry, newKey *ssa.Call
-	for _, cl := range eng.Calls(f) {
-		if call, ok := cl.(*ssa.Call); ok {
-			switch eng.CalleeName(&call.Call) {
-			case "(*container/list.List).PushBack":
-				push = call
-			case "service.MakeCipherEntry":
-				mkEntry = call
-			case "sdk/shadowsocks.NewEncryptionKey":
-				newKey = call
-			case "(*container/list.List).Remove", "(*container/list.List).PushFront", "(*container/list.List).MoveToBack", "(*container/list.List).MoveToFront", "(*container/list.List).InsertBefore":
-				c.CheckAt("DEDUP", key+":append-only", call, false, "the key list is reordered or pruned while it is built: the first ID of a duplicated (cipher, secret) would not be the one kept")
+	for _, g := range regFns {
+		for _, cl := range eng.Calls(g) {
+			if call, ok := cl.(*ssa.Call); ok {
+				switch eng.CalleeName(&call.Call) {
+				case "(*container/list.List).PushBack":
+					if g == f {
+						push = call
+					}
+				case "service.MakeCipherEntry":
+					mkEntry = call
+				case "sdk/shadowsocks.NewEncryptionKey":
+					newKey = call
+				case "(*container/list.List).Remove", "(*container/list.List).PushFront", "(*container/list.List).MoveToBack", "(*container/list.List).MoveToFront", "(*container/list.List).InsertBefore":
+					c.CheckAt("DEDUP", key+":append-only", call, false, "the key list is reordered or pruned while it is built: the first ID of a duplicated (cipher, secret) would not be the one kept")
+				}
 			}
 		}
 	}
@@ -743,38 +754,69 @@ func ruleDedup(c *Ctx, a *reloadAnchors) {
 		c.Undecided("DEDUP", key+":anchors", p.Pos(f.Pos()), "the builder lost its PushBack / MakeCipherEntry / NewEncryptionKey calls")
 		return
 	}
-	// the lookup that guards the push
+	// the seen-set: a map created by this call; the lookup that guards the push may sit in a helper that is handed the set
+	isSeenSet := func(v ssa.Value) bool {
+		g, _ := p.AllFrom(v, deepF, func(x ssa.Value) bool { mm, ok := x.(*ssa.MakeMap); return ok && mm.Parent() == f })
+		return g
+	}
 	var lk *ssa.Lookup
-	for _, b := range f.Blocks {
-		for _, ins := range b.Instrs {
-			if l, ok := ins.(*ssa.Lookup); ok && l.CommaOk {
-				lk = l
+	var anyLk *ssa.Lookup
+	for _, g := range regFns {
+		for _, b := range g.Blocks {
+			for _, ins := range b.Instrs {
+				if l, ok := ins.(*ssa.Lookup); ok && l.CommaOk {
+					anyLk = l
+					if isSeenSet(l.X) {
+						lk = l
+					}
+				}
 			}
 		}
 	}
 	if lk == nil {
+		if anyLk != nil {
+			c.CheckAt("DEDUP", key+":seen-set-is-per-call", anyLk, false, "the set of seen (cipher, secret) pairs is not created by this call (e.g. shared across services): a key that also appears in another service is silently dropped from this one")
+			return
+		}
 		c.CheckAt("DEDUP", key+":duplicate-test", push, false, "keys are pushed without testing whether (cipher, secret) was already seen")
 		return
 	}
-	// map created in this call
-	freshMap, _ := p.AllFrom(lk.X, eng.Plain, func(v ssa.Value) bool { mm, ok := v.(*ssa.MakeMap); return ok && mm.Parent() == f })
-	c.CheckAt("DEDUP", key+":seen-set-is-per-call", lk, freshMap, "the set of seen (cipher, secret) pairs is not created by this call (e.g. shared across services): a key that also appears in another service is silently dropped from this one")
-	// miss edge cuts the push
-	miss := eng.EdgeSet{}
-	for _, b := range f.Blocks {
-		iff, ok := b.Instrs[len(b.Instrs)-1].(*ssa.If)
-		if !ok {
-			continue
+	c.CheckAt("DEDUP", key+":seen-set-is-per-call", lk, true, "")
+	// the value in f that says "already seen": the lookup's ok, or the result of the helper that returns it unchanged
+	var hit ssa.Value
+	if lk.Parent() == f {
+		for _, r := range *lk.Referrers() {
+			if ex, ok := r.(*ssa.Extract); ok && ex.Index == 1 {
+				hit = ex
+			}
 		}
-		if ex, ok := iff.Cond.(*ssa.Extract); ok && ex.Tuple == ssa.Value(lk) && ex.Index == 1 {
-			miss[eng.Edge{From: b, To: b.Succs[1]}] = true
+	} else {
+		h := lk.Parent()
+		faithful := h.Signature.Results().Len() == 1
+		for _, r := range eng.Returns(h) {
+			if len(r.Results) != 1 {
+				faithful = false
+				continue
+			}
+			ex, isEx := p.Resolve(retVal(p, r)).(*ssa.Extract)
+			if !isEx || ex.Index != 1 || ex.Tuple != ssa.Value(lk) {
+				faithful = false
+			}
 		}
-		if u, ok := iff.Cond.(*ssa.UnOp); ok && u.Op == token.NOT {
-			if ex, ok := u.X.(*ssa.Extract); ok && ex.Tuple == ssa.Value(lk) && ex.Index == 1 {
-				miss[eng.Edge{From: b, To: b.Succs[0]}] = true
+		if faithful {
+			for _, cl := range eng.Calls(f) {
+				if call, ok := cl.(*ssa.Call); ok && call.Call.StaticCallee() == h {
+					hit = call
+				}
 			}
 		}
 	}
+	if hit == nil {
+		c.CheckAt("DEDUP", key+":duplicate-test", push, false, "the result of the duplicate test does not reach the builder")
+		return
+	}
+	// miss edge cuts the push
+	_, miss := eng.BoolEdges(f, func(v ssa.Value) bool { return v == hit })
 	c.CheckAt("DEDUP", key+":push-only-when-unseen", push, len(miss) > 0 && eng.Cut(f, push.Block(), miss), "a key is pushed although its (cipher, secret) is already in the list: one secret would authenticate under two IDs, or the later ID would win")
 	// every unseen key is pushed (unless its cipher is invalid → error return)
 	for _, e := range sortedEdges(miss) {
@@ -790,16 +832,29 @@ func ruleDedup(c *Ctx, a *reloadAnchors) {
 		})
 		c.Check("DEDUP", key+":every-unseen-key-is-pushed", blockPos(p, e.To), ok, fmt.Sprintf("an unseen key can be skipped without an error (%s): a configured key would not authenticate", p.IPos(bad)))
 	}
-	// record after push with the same key value
+	// record after push, under the same pair of the same key element
 	var upd *ssa.MapUpdate
-	for _, b := range f.Blocks {
-		for _, ins := range b.Instrs {
-			if mu, ok := ins.(*ssa.MapUpdate); ok && sameOrigin(c, mu.Map, lk.X) {
-				upd = mu
+	for _, g := range regFns {
+		for _, b := range g.Blocks {
+			for _, ins := range b.Instrs {
+				if mu, ok := ins.(*ssa.MapUpdate); ok && isSeenSet(mu.Map) {
+					upd = mu
+				}
 			}
 		}
 	}
-	c.CheckAt("DEDUP", key+":pair-recorded-after-push", push, upd != nil && eng.Dominates(push, upd) && sameLoad(p.Resolve(upd.Key), p.Resolve(lk.Index)), "the (cipher, secret) pair is not recorded in the seen-set after the push with the same key value that was looked up")
+	var updSite ssa.Instruction
+	if upd != nil {
+		if upd.Parent() == f {
+			updSite = upd
+		} else {
+			for _, cl := range eng.Calls(f) {
+				if call, ok := cl.(*ssa.Call); ok && call.Call.StaticCallee() == upd.Parent() {
+					updSite = call
+				}
+			}
+		}
+	}
 	// the key value is (Cipher, Secret) of the same key element the entry is built from
 	elemFields := func(v ssa.Value) map[string]bool {
 		out := map[string]bool{}
@@ -856,15 +911,21 @@ func ruleDedup(c *Ctx, a *reloadAnchors) {
 	}
 	kf := elemFields(lk.Index)
 	c.CheckAt("DEDUP", key+":duplicates-are-(cipher,secret)", lk, len(kf) == 2 && kf["Cipher"] && kf["Secret"], fmt.Sprintf("duplicates are detected on %v instead of exactly (Cipher, Secret)", kf))
+	sameKey := false
+	if upd != nil {
+		uf := elemFields(upd.Key)
+		sameKey = sameLoad(p.Resolve(upd.Key), p.Resolve(lk.Index)) || (len(uf) == 2 && uf["Cipher"] && uf["Secret"] && intersects(rangeSources(c, upd.Key, nil), rangeSources(c, lk.Index, nil)))
+	}
+	c.CheckAt("DEDUP", key+":pair-recorded-after-push", push, updSite != nil && eng.Dominates(push, updSite) && sameKey, "the (cipher, secret) pair is not recorded in the seen-set after the push with the same key value that was looked up")
 	// entry built from ID / key(Cipher, Secret) / Secret of the same element
 	okID := elemFields(mkEntry.Call.Args[0])["ID"]
 	okSec := elemFields(mkEntry.Call.Args[2])["Secret"]
-	okKey, _ := p.AllFrom(mkEntry.Call.Args[1], eng.Plain, func(v ssa.Value) bool { return eng.ResultOf(v, newKey, 0) })
+	okKey, _ := p.AllFrom(mkEntry.Call.Args[1], deepF, func(v ssa.Value) bool { return eng.ResultOf(v, newKey, 0) })
 	nk0, nk1 := elemFields(newKey.Call.Args[0]), elemFields(newKey.Call.Args[1])
 	c.CheckAt("DEDUP", key+":entry-built-from-this-key", mkEntry, okID && okSec && okKey && nk0["Cipher"] && nk1["Secret"], "the entry pushed is not MakeCipherEntry(key.ID, NewEncryptionKey(key.Cipher, key.Secret), key.Secret) of the key being processed")
 	same := intersects(rangeSources(c, lk.Index, nil), rangeSources(c, mkEntry.Call.Args[0], nil))
 	c.CheckAt("DEDUP", key+":test-and-entry-use-the-same-key-element", mkEntry, same, "the duplicate test and the entry use different key elements")
-	okPush, _ := p.AllFrom(push.Call.Args[1], eng.OriginOpts{ThroughConvert: true}, func(v ssa.Value) bool {
+	okPush, _ := p.AllFrom(push.Call.Args[1], deepF, func(v ssa.Value) bool {
 		al, ok := v.(*ssa.Alloc)
 		if !ok {
 			return false
